@@ -20,7 +20,12 @@ Hypothesis exp_sound : exp_proved = true -> forall v, exp_ok v = true -> in_exp 
 Hypothesis exp_dual_sound : exp_proved = true -> forall v, exp_dual_ok v = true -> in_exp_dual (vecR v).
 Variable psd_proved : bool.
 Hypothesis psd_sound : psd_proved = true -> forall n v, psd_ok n v = true -> in_psd n (vecR v).
-Hypothesis HK : forallb (certified_kind exp_proved psd_proved) (p_K p) = true.
+Variable powr_proved : bool.
+Hypothesis powr_sound :
+  powr_proved = true -> forall a v, pow_real_ok a v = true -> in_pow_real (d2R a) (vecR v).
+Hypothesis powr_dual_sound :
+  powr_proved = true -> forall a v, pow_real_dual_ok a v = true -> in_pow_real_dual (d2R a) (vecR v).
+Hypothesis HK : forallb (certified_kind exp_proved psd_proved powr_proved) (p_K p) = true.
 
 (** ** C02 *)
 Theorem chk_farkas_p_sound ta tr c kap z :
@@ -35,7 +40,7 @@ Proof.
   apply andb_prop in H1. destruct H1 as [Hl Hdz].
   apply Nat.eqb_eq in Hl. apply d2R_pos in Hc, Hk. apply dropped_zero_ok_sound in Hdz.
   repeat split; try assumption.
-  - apply (chk_InK_sound exp_proved exp_sound exp_dual_sound psd_proved psd_sound true); assumption.
+  - apply (chk_InK_sound exp_proved exp_sound exp_dual_sound psd_proved psd_sound powr_proved powr_sound powr_dual_sound true); assumption.
   - cbn [r_keep r_b pr probR_of]. apply tri_holds in H3. apply dltb_R in H3.
     rewrite !d2R_mul, d2R_neg, d2R_ddotv, !vecR_sel in H3. exact H3.
   - cbn [r_keep r_b r_A r_n pr probR_of]. apply tri_holds in H4. apply dltb_R in H4.
@@ -58,7 +63,7 @@ Proof.
   apply andb_prop in H1. destruct H1 as [Hlx Hls].
   apply Nat.eqb_eq in Hlx, Hls. apply d2R_pos in Hc, Hk.
   repeat split; try assumption.
-  - apply (chk_InK_sound exp_proved exp_sound exp_dual_sound psd_proved psd_sound false); assumption.
+  - apply (chk_InK_sound exp_proved exp_sound exp_dual_sound psd_proved psd_sound powr_proved powr_sound powr_dual_sound false); assumption.
   - cbn [r_q pr probR_of]. apply tri_holds in H3. apply dltb_R in H3.
     rewrite !d2R_mul, d2R_neg, d2R_ddotv in H3. exact H3.
   - cbn [r_q r_P pr probR_of]. apply tri_holds in H4. apply dltb_R in H4.
@@ -224,6 +229,6 @@ Proof.
   cbn zeta.
   split; [exact H3a|]. split; [exact H3b|]. split; [exact H4a|]. split; [exact H4b|].
   intros Hst. rewrite Hst in H5.
-  apply (chk_termtest_sound_gen p exp_proved exp_sound exp_dual_sound psd_proved psd_sound); assumption.
+  apply (chk_termtest_sound_gen p exp_proved exp_sound exp_dual_sound psd_proved psd_sound powr_proved powr_sound powr_dual_sound); assumption.
 Qed.
 End Sound2.
